@@ -900,7 +900,7 @@ def _case_holstein(ctx, prm):
                     prod = Op.product([Op(o, k) for k, o in e_ops.items()] + [Op(vop, vd)])
                     want = _au(sv, su) * dense.op_dense(base.basis, [prod])
                     _cmp(ctx, got, want, 1e-12, "Mpo.intersite|not-the-scaled-product-of-the-local-operators")
-        vals = set(np.round(Jb.ravel(), 15).tolist())
+        vals = set(float(x) for x in Jb.ravel())        # (exactly equal entries: what 'a constant' means for a matrix the builder filled)
         jc = _call(lambda: base.j_constant)
         ctx.count("oracle")
         if len(vals) == 1 or (len(vals) == 2 and 0.0 in vals):
